@@ -3,6 +3,7 @@ package zzverif
 import (
 	"bytes"
 	"errors"
+	"strings"
 
 	"github.com/microsoft/yardl/tooling/internal/iocommon"
 
@@ -106,8 +107,11 @@ func C12WriteIfNeeded() {
 	if verifChoose("content-model", 2) == 0 {
 		oldC, newC = verifStr("old"), verifStr("new")
 	} else {
-		pool := []string{"", "a", "a\n", "ab\n", "b", "a\n\n"}
-		oldC, newC = verifOneOf("old-from-pool", pool...), verifOneOf("new-from-pool", pool...)
+		// incl. contents differing only in line terminators, and contents that differ only after a line longer than 64 KiB
+		long := strings.Repeat("x", 70000)
+		pool := []string{"", "a", "a\n", "ab\n", "b", "a\n\n", "a\r\n", long + "\nA\n", long + "\nB\n"}
+		// concrete choices (the long contents are not sent to the solver)
+		oldC, newC = pool[verifChoose("old-from-pool", len(pool))], pool[verifChoose("new-from-pool", len(pool))]
 	}
 	if existing {
 		verifFsPut("/out/gen.py", oldC)
